@@ -367,16 +367,22 @@ inductive Outcome (S : Type) where
   | selectError
   | slicePanic
 
-/-- `rankSorter` is the `slices.SortStableFunc` by hybrid score, highest first, applied to what the
-index search returned; `sorter` is `utils.SortSearchResults` -/
+/-- everything `Shard.SearchPoints` does before the offset / limit slice: `rankSorter` is the
+`slices.SortStableFunc` by hybrid score, highest first, applied to what the index search returned;
+back-fill; select; `sorter` is `utils.SortSearchResults` -/
+def fullRows {S : Type} (docOf : Id → Doc) (rankSorter : List (Res S) → List (Res S))
+    (sorter : List (Row S) → List (Row S)) (r : SubResult S) (rq : Request) : Except Unit (List (Row S)) :=
+  match mapExcept (fun (e : Entry S) => (shape rq (docOf e.id)).map (fun d => (⟨e.id, e.hybrid, d⟩ : Row S)))
+      (backfill ⟨r.set, rankSorter r.res⟩) with
+  | .error e => .error e
+  | .ok rows => .ok (if rq.sort.isEmpty then rows else sorter rows)
+
 def searchPoints {S : Type} (docOf : Id → Doc) (rankSorter : List (Res S) → List (Res S))
     (sorter : List (Row S) → List (Row S)) (repaired : Bool)
     (r : SubResult S) (rq : Request) : Outcome S :=
-  match mapExcept (fun (e : Entry S) => (shape rq (docOf e.id)).map (fun d => (⟨e.id, e.hybrid, d⟩ : Row S)))
-      (backfill ⟨r.set, rankSorter r.res⟩) with
+  match fullRows docOf rankSorter sorter r rq with
   | .error _ => .selectError
   | .ok rows =>
-    let rows := if rq.sort.isEmpty then rows else sorter rows
     match (if repaired then pageRepaired rows rq.off rq.lim else pagePinned rows rq.off rq.lim) with
     | .error _ => .slicePanic
     | .ok p => .rows p
@@ -391,5 +397,69 @@ def contribs {S : Type} (rs : List (Res S)) (id : Id) : List S :=
 def sumLeft {S : Type} (add : S → S → S) : List S → Option S
   | [] => none
   | x :: xs => some (xs.foldl add x)
+
+/-- the hybrid score a ranked list reports for `id` -/
+def hybridOf {S : Type} (rs : List (Res S)) (id : Id) : Option S := (rs.find? (fun r => r.id == id)).map (·.hybrid)
+
+/-! ### query trees: `indexManager.Search` recursing through `_and` / `_or` -/
+
+mutual
+/-- a query tree whose leaves are the answers of the ranking / filter indices -/
+inductive QTree (S : Type) where
+  | leaf (r : SubResult S)
+  | node (isOr : Bool) (subs : QForest S)
+inductive QForest (S : Type) where
+  | nil
+  | cons (t : QTree S) (ts : QForest S)
+end
+
+def QForest.isNil {S : Type} : QForest S → Bool
+  | .nil => true
+  | .cons _ _ => false
+
+mutual
+/-- `indexManager.Search` on a composite query: every sub-query is searched, then `searchParallel` -/
+def evalTree {S : Type} (add : S → S → S) (sorter : List (Res S) → List (Res S)) : QTree S → SubResult S
+  | .leaf r => r
+  | .node isOr subs => searchParallel add sorter isOr (evalForest add sorter subs)
+def evalForest {S : Type} (add : S → S → S) (sorter : List (Res S) → List (Res S)) : QForest S → List (SubResult S)
+  | .nil => []
+  | .cons t ts => evalTree add sorter t :: evalForest add sorter ts
+end
+
+mutual
+/-- the documented id set of a query tree: union for `_or`, intersection for `_and` (empty for no sub-query) -/
+def inSetB {S : Type} : QTree S → Id → Bool
+  | .leaf r, id => decide (id ∈ r.set)
+  | .node isOr ts, id => if isOr then anySetB ts id else (!ts.isNil && allSetB ts id)
+def anySetB {S : Type} : QForest S → Id → Bool
+  | .nil, _ => false
+  | .cons t ts, id => inSetB t id || anySetB ts id
+def allSetB {S : Type} : QForest S → Id → Bool
+  | .nil, _ => true
+  | .cons t ts, id => inSetB t id && allSetB ts id
+end
+
+mutual
+/-- the documented hybrid score of a point in a query tree: at a leaf what the index reports; at a
+composite the sum, in sub-query order, of the hybrid scores of the sub-queries that rank the point —
+provided the point is in the composite's id set; `none` = not ranked -/
+def hybridSpec {S : Type} (add : S → S → S) : QTree S → Id → Option S
+  | .leaf r, id => hybridOf r.res id
+  | .node isOr ts, id => if inSetB (.node isOr ts) id then sumLeft add (hybridsSpec add ts id) else none
+def hybridsSpec {S : Type} (add : S → S → S) : QForest S → Id → List S
+  | .nil, _ => []
+  | .cons t ts, id => (hybridSpec add t id).toList ++ hybridsSpec add ts id
+end
+
+mutual
+/-- the leaves are well formed: ranked ids are in the leaf's id set, each at most once -/
+def leavesWF {S : Type} : QTree S → Prop
+  | .leaf r => (∀ x ∈ r.res, x.id ∈ r.set) ∧ (r.res.map (·.id)).Nodup
+  | .node _ ts => forestWF ts
+def forestWF {S : Type} : QForest S → Prop
+  | .nil => True
+  | .cons t ts => leavesWF t ∧ forestWF ts
+end
 
 end Sema.C06
